@@ -11,7 +11,8 @@ COQ_IMPORTS = 'From Bac Require Import Base Iocb Ssm SsmWorld.'
 RULE = ('cases: one confirmed request between two nodes (max-APDU 50..206, all 16 segmentation pairs, windows 1..8, retries 0..3, '
         'timeouts 250..3000 ms, payloads around every segment boundary, every kind of answer incl. silence and a slow application) under '
         'no fault, one or two faults (drop, duplicate, delay 125/500/2000 ms, late duplicate) at seeded frame indices or total silence '
-        'from a frame on; plus every single fault at every frame of two fixed transfers; plus IOCB histories on a real ApplicationIOController (1..8 IOCBs over 1..3 addresses, several '
+        'from a frame on; plus every single fault at every frame of two fixed transfers; plus two or three stations that hold each other\'s device information records (from the start or from an I-Am arriving '
+        'mid-history) with overlapping client transactions to one known peer and client + server transactions with the same peer at once, ending by answer / error / abort / time-out in every order; plus IOCB histories on a real ApplicationIOController (1..8 IOCBs over 1..3 addresses, several '
         'queued to one address, requests refused below, acks / errors from below, client aborts, batches of deferred functions) against Iocb.run_ops.  Compared: every frame (header, length, payload '
         'checksum, APDU length), every application event, every timer expiry (instant, owner, state), exception classes, residue.  '
         'non-trivial = at least one frame on the wire; distinct by scenario.')
@@ -40,6 +41,9 @@ def cases(rng, tier):
         out.append(S.scenario_case(S.gen_request_tail(rng), 'request-tail'))
     for _ in range(300 if tier == 'thorough' else 40):
         out.append(S.scenario_case(S.gen_concurrent(rng), 'concurrent'))
+    # stations that hold each other's device information records and use them in overlapping transactions (both roles)
+    for _ in range(400 if tier == 'thorough' else 40):
+        out.append(S.scenario_case(S.gen_known_overlap(rng), 'known-peers-overlap'))
     # two faults over every pair of frames of a short segmented transfer (seeded slice in quick)
     nodes = S.two_nodes(know=False, retries=1, apduTimeout=1000, segTimeout=500)
     req = {'t': 0, 'src': 1, 'dst': 2, 'len': 70, 'service': 12, 'resp': ['complex', 70], 'resp_delay': 0}
@@ -66,7 +70,8 @@ def direct(rng, tier, focus=()):
             ('capability', lambda r: S.gen_capability(r), 8000 if big else 300),
             ('request-tail', lambda r: S.gen_request_tail(r), 6000 if big else 600),
             ('bidirectional', lambda r: S.gen_bidirectional(r), 2000 if big else 200),
-            ('parked-answers', lambda r: S.gen_park_flush(r), 1000 if big else 100)]
+            ('parked-answers', lambda r: S.gen_park_flush(r), 1000 if big else 100),
+            ('known-peers-overlap', lambda r: S.gen_known_overlap(r), 6000 if big else 400)]
     failures, stats = S.direct_families(rng, fams, S.check_c04, focus)
     for spec in fixed_grid(rng):
         tr, fs = S.run_checked(spec, S.check_c04)
